@@ -16,7 +16,16 @@
  *   resize <t> <n> | concat|assign|push|rem <t> <src> | pop <t> | push_at <t> <src> <i> | pop_at <t> <i> | set <t> <key> <val>
  *   iter <id> fwd|back | values <id> | view slice <id> <k> | view reverse|enumerate|filter|map <id> | view zip <a> <b>
  *   view range|hrange <a> <b> <c>
- *   sweep <id>*                      a collector run in which exactly these objects are found unreachable
+ *   box <id> <route> <target|->      a Box (src/Pointer.c): its destructor `del`s what it points to; new* routes construct it
+ *                                    from <target> (a Ref / Box argument is dereferenced by Box_Assign), alloc* routes give NULL
+ *   own <id> <target|->              ref(box, target): re-point a Box (this is how rings and chains are built)
+ *   sweep <id>* [; <id>*]            a collector run (GC_Sweep) in which exactly these objects are found unreachable; the ids
+ *                                    after `;` come first on the pending list, in that order, the others follow in birth order
+ *   thr <id>* [; <id>*]              the same collection, run by GC_Set itself: registered objects are allocated until the
+ *                                    threshold is exceeded (GC_Mark; GC_Sweep)
+ *   exit [; <id>*]                   what the teardown at program exit does from here: a forked child calls exit(0)
+ *                                    (atexit: Cello_Exit -> GC_Del -> GC_Sweep with nothing marked) and reports its release
+ *                                    ledger from a destructor-attribute function; the parent goes on unchanged
  *   kf <name>                        witness of a known finding, run in a forked child
  *   end
  *   route ∈ new new_raw new_root alloc alloc_raw alloc_root stack static
@@ -24,7 +33,18 @@
  * Stack objects are made with the real `$` / `tuple` macros in a frame that stays alive while the rest of the file runs
  * (the interpreter recurses at every stack birth).  `free` and `realloc` of the whole library are routed through hooks
  * (macros, no change to /repo): the hooks keep the ledger of released blocks and refuse — with an X line — to free or
- * reallocate memory that belongs to a stack, static or embedded object. */
+ * reallocate memory that belongs to a stack, static or embedded object.
+ *
+ * Release ledger: every `free` of the block of a heap object is recorded, in order (`rel=` / `freed=` of the O lines: the
+ * exact release sequence, which the model predicts); the oracle computes, independently of the model and before the
+ * operation runs, the set of objects the operation must release — the object itself (the victims), closed under "a Box
+ * that is released deletes its pointee if the collector lists it" on the harness's own shadow of the Box pointers — and
+ * compares per object: released exactly once if in the set, not at all otherwise.
+ * Pending order and marks of a collection: GC_Sweep's first statement is `realloc(gc->freelist, ..)`; when a collection
+ * is expected the realloc hook uses that moment (after GC_Mark, before phase 1) to set the mark bits (everything marked
+ * except the victims) and to lay the victims out in the order the op asks for, by exchanging the `ptr` words of the
+ * victims' registry entries among themselves — what another assignment of addresses to the same objects would give;
+ * phase 1 copies `ptr` to the pending list and removes those entries, nothing else reads them. */
 #include <stdlib.h>
 #include <stddef.h>
 #include <stdint.h>
@@ -36,11 +56,12 @@ static void* v_hook_realloc(void* p, size_t n);
 #undef free
 #undef realloc
 #include <sanitizer/allocator_interface.h>
+#include <sanitizer/common_interface_defs.h>
 
 #define HS ((size_t)sizeof(struct Header))
 enum { MAXH = 600, MAXRT = 16, MAXENT = 512 };
 enum { R_NEW, R_NEW_RAW, R_NEW_ROOT, R_ALLOC, R_ALLOC_RAW, R_ALLOC_ROOT, R_STACK, R_STATIC, R_BAD };
-enum { K_INT, K_STR, K_TUP, K_REF, K_ARR, K_LST, K_TAB, K_TRE, K_RTT, K_RTO, K_STY };
+enum { K_INT, K_STR, K_TUP, K_REF, K_ARR, K_LST, K_TAB, K_TRE, K_RTT, K_RTO, K_STY, K_BOX };
 
 typedef struct {
   int used, live;      /* live: the oracle's own ledger (set false when the block is seen freed) */
@@ -54,11 +75,14 @@ typedef struct {
   int frees;           /* how often `block` was passed to free */
   size_t cap;          /* bytes reserved after the header, when the harness made the storage itself */
   int stamp;           /* birth order */
+  int owns;            /* K_BOX: the harness's shadow of what the Box points to (-1 = NULL) */
 } Meta;
 static Meta meta[MAXH];
 static var* tab;       /* live handles: lives in main's frame so that the collector sees them */
 static size_t cur_line;
 static int n_ops, n_refused, n_births, n_x;
+static int relseq[1 << 16]; static int nrel;      /* the release ledger: ids in the order their blocks were freed */
+static int in_exit_child, exit_pipe = -1, in_kf_child;
 
 static var rt_type[MAXRT]; static size_t rt_size[MAXRT]; static int rt_defined[MAXRT];
 static const char* rt_name[MAXRT] = { "RT0","RT1","RT2","RT3","RT4","RT5","RT6","RT7","RT8","RT9","RT10","RT11","RT12","RT13","RT14","RT15" };
@@ -78,12 +102,16 @@ static void v_hook_free(void* p) {
     if (p == owned_watch) owned_freed++;
     for (int id = 0; id < MAXH; id++) if (meta[id].used && meta[id].block == p) {
       meta[id].frees++; meta[id].live = 0;
+      if (nrel < (1 << 16)) relseq[nrel++] = id;
       if (meta[id].frees > 1) { XF("hdr-double-release", "block of object %d freed %d times", id, meta[id].frees); return; }
     }
   }
   free(p);
 }
+static struct { int armed, fired, all; struct GC* gc; int nv; int vict[MAXH]; int no; int order[64]; } hk;
+static void sweep_prepare(struct GC* gc);
 static void* v_hook_realloc(void* p, size_t n) {
+  if (hk.armed && !hk.fired && hk.gc && p == (void*)hk.gc->freelist && n == sizeof(var) * hk.gc->nitems) { hk.fired = 1; sweep_prepare(hk.gc); }
   if (p) {
     for (int i = 0; i < nforb; i++) if ((char*)p >= forb[i].lo && (char*)p < forb[i].hi) {
       forb_hits++; XF("hdr-realloc-nonheap", "realloc(%s) of a stack, static or embedded object", forb[i].what); return p; }
@@ -111,6 +139,9 @@ static const char* reg_name(var x) {
 static int id_of(var p) { for (int id = 0; id < MAXH; id++) if (meta[id].used && meta[id].addr == p) return id; return -1; }
 static int is_live(int id) { return id >= 0 && id < MAXH && meta[id].used && meta[id].live; }
 static int usable_arg(int id) { return id >= 0 && id < MAXH && meta[id].used && meta[id].live && meta[id].addr != Terminal; }
+/* is the object what some live Box points to (by the harness's shadow)? */
+static int owned(int id) { for (int j = 0; j < MAXH; j++) if (meta[j].used && meta[j].live && meta[j].kind == K_BOX && meta[j].owns == id) return 1; return 0; }
+static int usable_item(int id) { return usable_arg(id) && !owned(id) && meta[id].kind != K_BOX; }   /* Box_Show follows the pointer: no Boxes inside Tuples */
 static int route_is_alloc(int r) { return r == R_ALLOC || r == R_ALLOC_RAW || r == R_ALLOC_ROOT; }
 static int route_is_heap(int r) { return r <= R_ALLOC_ROOT; }
 
@@ -192,6 +223,7 @@ static void dump_obj(char* o, char* end, int id) {
       if (i > 24) o += snprintf(o, end - o, ",..+%zu", i - 24);
       snprintf(o, end - o, "]"); break; }
     case K_REF: snprintf(o, end - o, "r%d", id_of(((struct Ref*)x)->val)); break;
+    case K_BOX: { var v = ((struct Box*)x)->val; if (v == NULL) snprintf(o, end - o, "b-"); else snprintf(o, end - o, "b%d", id_of(v)); break; }
     case K_ARR: case K_LST: {
       o += snprintf(o, end - o, "%c%s[", meta[id].kind == K_ARR ? 'a' : 'l', c_str(iter_type(x)));
       size_t n = len(x);
@@ -300,6 +332,7 @@ static void describe(char* o, char* end, Target t) {
 /* ------------------------------------------------------------------------------------------------------- births */
 static int new_handle(int id, int route, int kind, var x, var etype, int rtk, size_t cap) {
   Meta* m = &meta[id]; memset(m, 0, sizeof *m);
+  m->owns = -1;
   m->used = 1; m->live = 1; m->route = route; m->kind = kind; m->etype = etype; m->rtk = rtk; m->addr = x; m->cap = cap;
   m->ecls = route == R_STACK ? AllocStack : route == R_STATIC ? AllocStatic : AllocHeap;
   m->ereg = (route == R_NEW || route == R_ALLOC) ? 1 : (route == R_NEW_ROOT || route == R_ALLOC_ROOT) ? 2 : 0;
@@ -427,6 +460,64 @@ static void protect(var x, size_t cap) {
 }
 static void unprotect(void) { nforb = 0; }
 
+/* ----------------------------------------------------------------------------- the release ledger and its oracle */
+static int is_registered_in(struct GC* gc, int id) { return meta[id].used && meta[id].live && meta[id].addr && route_is_heap(meta[id].route) && GC_Mem_Ptr(gc, meta[id].addr); }
+static int ownable(int u) { return usable_arg(u) && !referenced(u) && meta[u].kind != K_RTT && meta[u].kind != K_STY; }
+static int exp_rel[MAXH], frees_before[MAXH], reg_before[MAXH], nrel0;
+static void expect_begin(void) {
+  nrel0 = nrel; struct GC* gc = current(GC);
+  for (int id = 0; id < MAXH; id++) { exp_rel[id] = 0; frees_before[id] = meta[id].frees; reg_before[id] = meta[id].used ? is_registered_in(gc, id) : 0; }
+}
+/* a Box whose destructor runs deletes its pointee: released too if the collector lists it (registered when the op began) */
+static void expect_closure(void) {
+  for (int changed = 1; changed;) {
+    changed = 0;
+    for (int b = 0; b < MAXH; b++) if (exp_rel[b] && meta[b].used && meta[b].kind == K_BOX && meta[b].owns >= 0) {
+      int v = meta[b].owns;
+      if (meta[v].used && meta[v].live && !exp_rel[v] && reg_before[v]) { exp_rel[v] = 1; changed = 1; }
+      /* a pointee that is not on the heap must survive: the hooks refuse to free it */
+      if (meta[v].used && meta[v].live && meta[v].ecls != AllocHeap && nforb < 8) forbid((char*)meta[v].addr - HS, HS + meta[v].cap, "a stack or static object owned by a Box");
+    }
+  }
+}
+static void expect_check(const char* opname) {
+  for (int id = 0; id < MAXH; id++) if (meta[id].used) {
+    int delta = meta[id].frees - frees_before[id];
+    if (delta != exp_rel[id])
+      XF("hdr-release-count", "%s released object %d (%s, %s) %d times, expected %d", opname, id, cls_name(meta[id].ecls),
+         meta[id].ereg ? "registered at birth" : "raw", delta, exp_rel[id]);
+  }
+}
+static const char* rel_since(int n0) {
+  static char out[1200]; char* o = out; *o = 0;
+  if (nrel == n0) return "-";
+  for (int k = n0; k < nrel && o < out + sizeof out - 16; k++) o += snprintf(o, out + sizeof out - o, k > n0 ? ",%d" : "%d", relseq[k]);
+  return out;
+}
+/* runs at the first statement of GC_Sweep (see the realloc hook): marks and pending order of the collection under way */
+static void sweep_prepare(struct GC* gc) {
+  static size_t slots[MAXH * 2]; static var ptrs[MAXH * 2]; static long keys[MAXH * 2]; size_t ns = 0;
+  for (size_t q = 0; q < gc->nslots; q++) if (gc->entries[q].hash) {
+    int id = id_of(gc->entries[q].ptr), victim = 0;
+    if (hk.all) victim = 1;
+    else if (id >= 0) for (int k = 0; k < hk.nv; k++) if (hk.vict[k] == id) victim = 1;
+    gc->entries[q].marked = !victim;
+    if (!victim || gc->entries[q].root || ns >= MAXH * 2) continue;
+    long key = 100000 + (long)q;                       /* objects the harness does not know: last, in slot order */
+    if (id >= 0) { key = 1000 + meta[id].stamp; for (int k = hk.no - 1; k >= 0; k--) if (hk.order[k] == id) key = k; }
+    slots[ns] = q; ptrs[ns] = gc->entries[q].ptr; keys[ns] = key; ns++;
+  }
+  for (size_t a = 1; a < ns; a++) { var pp = ptrs[a]; long kk = keys[a]; size_t c = a; while (c > 0 && keys[c - 1] > kk) { ptrs[c] = ptrs[c - 1]; keys[c] = keys[c - 1]; c--; } ptrs[c] = pp; keys[c] = kk; }
+  for (size_t a = 0; a < ns; a++) gc->entries[slots[a]].ptr = ptrs[a];
+}
+__attribute__((destructor)) static void hdr_fini(void) {
+  if (!in_exit_child) return;
+  expect_check("exit");
+  const char* r = rel_since(nrel0);
+  if (exit_pipe >= 0 && write(exit_pipe, r, strlen(r)) < 0) {}
+  fflush(stdout);
+}
+
 /* ------------------------------------------------------------------------------------------------- iteration */
 static char itbuf[3000]; static char* itp; static int itn;
 static void it_begin(void) { itp = itbuf; itn = 0; *itp = 0; }
@@ -483,7 +574,7 @@ static void run_kf(const char* name) {
   fflush(stdout);
   pid_t pid = fork();
   if (pid == 0) {
-    close(pfd[0]); alarm(20);
+    close(pfd[0]); alarm(20); in_kf_child = 1;
     int devnull = open("/dev/null", 1); if (devnull >= 0) dup2(devnull, 2);
     char msg[128] = "";
     if (which == 1) {
@@ -547,7 +638,7 @@ static int supported_inplace(int kind_of_target /* K_* or K_STR for an embedded 
     case K_TUP:
       if (tuple_len(target) == 0 && ((struct Tuple*)target)->items == NULL) return 0;
       switch (op) {
-        case P_PUSH: case P_PUSH_AT: return usable_arg(a);
+        case P_PUSH: case P_PUSH_AT: return usable_item(a);
         case P_POP: case P_POP_AT: case P_RESIZE: return 1;
         case P_CONCAT: return is_live(a) && meta[a].kind == K_TUP && ((struct Tuple*)meta[a].addr)->items != NULL && iterable(a);
         case P_ASSIGN: return is_live(a) && meta[a].kind == K_TUP && ((struct Tuple*)meta[a].addr)->items != NULL;
@@ -683,7 +774,7 @@ static void do_line(char** lines, size_t n, size_t li, int* recursed) {
 
   /* ---- births */
   if (!strcmp(op, "int") || !strcmp(op, "str") || !strcmp(op, "tup") || !strcmp(op, "ref") || !strcmp(op, "arr") || !strcmp(op, "lst") ||
-      !strcmp(op, "tab") || !strcmp(op, "tre") || !strcmp(op, "rtt") || !strcmp(op, "rto")) {
+      !strcmp(op, "tab") || !strcmp(op, "tre") || !strcmp(op, "rtt") || !strcmp(op, "rto") || !strcmp(op, "box")) {
     if (ntok < 3 || !parse_nat(toks[1], &a) || a >= MAXH) BAD();
     int id = (int)a, route = parse_route(toks[2]);
     if (route == R_BAD) BAD();
@@ -718,7 +809,7 @@ static void do_line(char** lines, size_t n, size_t li, int* recursed) {
       if (meta[id].used) BAD();
       if (route_is_alloc(route)) SKIP("unsupported");
       if (cnt > 6) SKIP("unsupported");
-      for (int k = 0; k < cnt; k++) { parse_nat(toks[3 + k], &b); if (b >= MAXH || !usable_arg((int)b)) ok = 0; else items[k] = meta[b].addr; }
+      for (int k = 0; k < cnt; k++) { parse_nat(toks[3 + k], &b); if (b >= MAXH || !usable_item((int)b)) ok = 0; else items[k] = meta[b].addr; }
       if (!ok) SKIP("unsupported");
       if (route == R_STACK) { *recursed = 1; birth_stack_tup(lines, n, li, id, items, cnt); return; }
       if (route == R_STATIC) {
@@ -735,10 +826,33 @@ static void do_line(char** lines, size_t n, size_t li, int* recursed) {
       if (ntok != 4 || !parse_nat(toks[3], &b)) BAD();
       if (meta[id].used) BAD();
       if (route == R_STATIC || b >= MAXH || !usable_arg((int)b)) SKIP("unsupported");
+      if ((route == R_NEW || route == R_NEW_RAW || route == R_NEW_ROOT) && meta[b].kind == K_BOX) SKIP("unsupported");   /* Ref_Assign dereferences a Box */
       if (route == R_STACK) { *recursed = 1; birth_stack_ref(lines, n, li, id, meta[b].addr); return; }
       var x = route_is_alloc(route) ? by_route(route, Ref, NULL) : by_route(route, Ref, tuple(meta[b].addr));
       if (route_is_alloc(route)) ((struct Ref*)x)->val = meta[b].addr;
       new_handle(id, route, K_REF, x, Ref, -1, 0); report_birth(id); return;
+    }
+    if (!strcmp(op, "box")) {
+      int t = -1;
+      if (ntok != 4) BAD();
+      if (strcmp(toks[3], "-")) { if (!parse_nat(toks[3], &b)) BAD(); t = b < MAXH ? (int)b : MAXH - 1; }
+      if (meta[id].used) BAD();
+      if (!route_is_heap(route)) SKIP("unsupported");
+      if (route_is_alloc(route)) {
+        if (t >= 0) SKIP("unsupported");
+        var x = by_route(route, Box, NULL);                       /* zeroed: val = NULL */
+        new_handle(id, route, K_BOX, x, Box, -1, 0); report_birth(id); return;
+      }
+      if (t < 0 || !usable_arg(t)) SKIP("unsupported");
+      /* Box_New -> Box_Assign(self, arg): an argument that is itself a pointer object is dereferenced */
+      int fin = t, null_val = 0;
+      if (meta[t].kind == K_REF) fin = id_of(((struct Ref*)meta[t].addr)->val);
+      else if (meta[t].kind == K_BOX) { fin = meta[t].owns; if (fin < 0) null_val = 1; }
+      if (!null_val && (fin < 0 || !ownable(fin))) SKIP("unsupported");
+      var x = by_route(route, Box, tuple(meta[t].addr));
+      new_handle(id, route, K_BOX, x, Box, -1, 0); meta[id].owns = null_val ? -1 : fin; report_birth(id);
+      if (((struct Box*)x)->val != (null_val ? NULL : meta[fin].addr)) XF("hdr-box-val", "new(Box, x) does not point to what Box_Assign must give it");
+      return;
     }
     if (!strcmp(op, "arr") || !strcmp(op, "lst")) {
       var ety; int rtk; if (ntok < 4) BAD();
@@ -798,7 +912,7 @@ static void do_line(char** lines, size_t n, size_t li, int* recursed) {
       describe(before, before + sizeof before, t);
       V_TRY(exc, x = copy(meta[src].addr));
       describe(desc, desc + sizeof desc, t);
-      O("copy exc=%s %s", v_exc_name(exc), desc);
+      O("copy exc=%s %s rel=-", v_exc_name(exc), desc);
       if (exc != ValueError) XF("hdr-no-refusal", "copy of a Type object raised %s", v_exc_name(exc));
       if (strcmp(before, desc)) XF("hdr-changed", "copy of a Type object changed it");
       return;
@@ -807,7 +921,25 @@ static void do_line(char** lines, size_t n, size_t li, int* recursed) {
     V_TRY(exc, x = copy(meta[src].addr));
     if (exc || !x) { XF("hdr-copy", "copy raised %s", v_exc_name(exc)); O("copy exc=%s", v_exc_name(exc)); return; }
     new_handle((int)a, R_NEW, meta[src].kind, x, type_of(meta[src].addr), meta[src].rtk, 0);
+    meta[a].owns = meta[src].kind == K_BOX ? meta[src].owns : -1;
     report_birth((int)a); return;
+  }
+
+  /* ---- re-pointing a Box */
+  if (!strcmp(op, "own") && ntok == 3 && parse_nat(toks[1], &a)) {
+    int t = -1;
+    if (strcmp(toks[2], "-")) { if (!parse_nat(toks[2], &b)) BAD(); t = b < MAXH ? (int)b : MAXH - 1; }
+    if (a >= MAXH || !meta[a].used) BAD();
+    if (!meta[a].live) SKIP("dead");
+    if (meta[a].kind != K_BOX) SKIP("unsupported");
+    if (t >= 0 && !ownable(t)) SKIP("unsupported");
+    expect_begin();
+    V_TRY(exc, ref(meta[a].addr, t >= 0 ? meta[t].addr : NULL));
+    meta[a].owns = t;
+    Target tg = { 0, (int)a, 0 }; describe(desc, desc + sizeof desc, tg);
+    O("own exc=%s %s rel=%s", v_exc_name(exc), desc, rel_since(nrel0));
+    expect_check("own"); oracle_handle((int)a, "after re-pointing a Box");
+    return;
   }
 
   /* ---- observation */
@@ -837,9 +969,11 @@ static void do_line(char** lines, size_t n, size_t li, int* recursed) {
         if (fop_via_collector(f) && x && route_is_heap(m->route)) {
           /* a second del of a released heap object: the collector only looks the pointer up */
           int reused = 0; for (int j = 0; j < MAXH; j++) if (j != t.id && meta[j].used && meta[j].live && meta[j].addr == x) reused = 1;
+          expect_begin();
           exc = NULL; if (!reused) { V_TRY(exc, call_fop(f, x)); } else I("address of released object %d is in use again; second %s not executed", t.id, op);
           describe(desc, desc + sizeof desc, t);
-          O("%s exc=%s %s", op, v_exc_name(exc), desc);
+          O("%s exc=%s %s rel=%s", op, v_exc_name(exc), desc, rel_since(nrel0));
+          expect_check(op);
           if (m->frees != 1) XF("hdr-release-count", "after a second %s object %d was released %d times", op, t.id, m->frees);
           return;
         }
@@ -851,22 +985,27 @@ static void do_line(char** lines, size_t n, size_t li, int* recursed) {
       if (is_type_in_use(t.id)) SKIP("misuse");
       if (m->ecls == AllocHeap && referenced(t.id)) SKIP("referenced");
       describe(before, before + sizeof before, t);
-      var xty = magic_ok(x) ? type_of(x) : NULL; int cl = m->ecls; int frees0 = m->frees;
+      var xty = magic_ok(x) ? type_of(x) : NULL; int cl = m->ecls;
+      nforb = 0; forb_hits = 0;
       if (cl != AllocHeap) protect(x, m->cap);
+      /* what must be released, by the property: a heap object exactly once by del of a registered object, by del_raw /
+         dealloc of a raw one, not at all by del of a raw one; when its destructor runs (del, del_root, del_raw) and it is a
+         Box, also what it points to if the collector lists that, and so on; a non-heap object never, and nothing else */
+      expect_begin();
+      if (cl == AllocHeap) {
+        exp_rel[t.id] = fop_via_collector(f) ? registered : 1;
+        if (exp_rel[t.id] && (fop_via_collector(f) || f == F_DEL_RAW)) expect_closure();
+      }
       x_is_terminal = x == Terminal;
       V_TRY(exc, call_fop(f, x));
       unprotect();
-      if (!m->live) tab[t.id] = NULL;
+      for (int k = nrel0; k < nrel; k++) tab[relseq[k]] = NULL;
       describe(after, after + sizeof after, t);
-      O("%s exc=%s %s", op, v_exc_name(exc), after);
+      O("%s exc=%s %s rel=%s", op, v_exc_name(exc), after, rel_since(nrel0));
       if (exc) n_refused++;
+      expect_check(op);
       if (cl != AllocHeap) { oracle_refusal(op, 1, f, xty, cl, exc, before, after, 0, 0); if (m->live) oracle_handle(t.id, "after a refused release"); }
-      else {
-        /* heap: released exactly once by del of a registered object, by del_raw / dealloc of a raw one; not at all by del of a raw one */
-        int should = fop_via_collector(f) ? registered : 1;
-        if (m->frees - frees0 != should) XF("hdr-release-count", "%s of a %s heap object released it %d times", op, registered ? "registered" : "raw", m->frees - frees0);
-        if (exc) XF("hdr-heap-refused", "%s of a heap object raised %s", op, v_exc_name(exc));
-      }
+      else if (exc) XF("hdr-heap-refused", "%s of a heap object raised %s", op, v_exc_name(exc));
       oracle_registry();
       return;
     }
@@ -876,12 +1015,14 @@ static void do_line(char** lines, size_t n, size_t li, int* recursed) {
     var ety = magic_ok(e) ? type_of(e) : NULL;
     protect(e, elem_cap(t)); x_is_terminal = 0;
     if (ety == String) { owned_watch = ((struct String*)e)->val; owned_freed = 0; }
+    expect_begin();
     V_TRY(exc, call_fop(f, e));
     unprotect();
     if (ety == String && owned_freed) { ((struct String*)e)->val = NULL; XF("hdr-elem-destructed", "%s of an embedded String freed its characters", op); }
     owned_watch = NULL;
     describe(after, after + sizeof after, t);
-    O("%s exc=%s %s", op, v_exc_name(exc), after);
+    O("%s exc=%s %s rel=%s", op, v_exc_name(exc), after, rel_since(nrel0));
+    expect_check(op);
     if (exc) n_refused++;
     oracle_refusal(op, 1, f, ety, AllocData, exc, before, after, 0, 0);
     oracle_registry();
@@ -915,10 +1056,12 @@ static void do_line(char** lines, size_t n, size_t li, int* recursed) {
     describe(before, before + sizeof before, t);
     var xty = type_of(x); size_t tlen = xty == Tuple ? tuple_len(x) : 0;
     if (cl != AllocHeap) protect(x, cap);
+    expect_begin();
     V_TRY(exc, call_inplace(x, p, A, B, nn));
     unprotect();
     describe(after, after + sizeof after, t);
-    O("%s exc=%s %s", op, v_exc_name(exc), after);
+    O("%s exc=%s %s rel=%s", op, v_exc_name(exc), after, rel_since(nrel0));
+    expect_check(op);
     if (exc) n_refused++;
     oracle_refusal(op, 0, p, xty, cl, exc, before, after, nn, tlen);
     if (t.kind == 0) oracle_handle(t.id, "after an in-place operation");
@@ -978,47 +1121,84 @@ static void do_line(char** lines, size_t n, size_t li, int* recursed) {
   }
 
   /* ---- the collector */
-  if (!strcmp(op, "sweep")) {
-    int vict[64], nv = 0;
-    for (int k = 1; k < ntok; k++) { if (!parse_nat(toks[k], &a)) BAD(); if (nv < 64) vict[nv++] = a < MAXH ? (int)a : MAXH - 1; }
+  if (!strcmp(op, "sweep") || !strcmp(op, "thr") || !strcmp(op, "exit")) {
+    static int vict[MAXH], elig[MAXH], expect[MAXH]; int nv = 0, no = 0, ne = 0, order[64];
+    int k = 1;
+    for (; k < ntok && strcmp(toks[k], ";"); k++) { if (!parse_nat(toks[k], &a)) BAD(); if (nv < MAXH) vict[nv++] = a < MAXH ? (int)a : MAXH - 1; }
+    for (k++; k < ntok; k++) { if (!parse_nat(toks[k], &a)) BAD(); if (no < 64) order[no++] = a < MAXH ? (int)a : MAXH - 1; }
+    int is_exit = !strcmp(op, "exit"), is_thr = !strcmp(op, "thr");
+    if (is_exit && nv) BAD();
     struct GC* gc = current(GC);
-    /* what must happen, by the property: registered non-root heap victims are released once, nothing else is touched */
-    static char snap[64][400]; int frees0[64], expect[64];
-    for (int k = 0; k < nv; k++) {
-      Meta* m = &meta[vict[k]]; expect[k] = 0; snap[k][0] = 0; frees0[k] = m->frees;
-      if (!m->used || !m->live) continue;
-      Target t = { 0, vict[k], 0 }; char big[3500]; describe(big, big + sizeof big, t); snprintf(snap[k], sizeof snap[k], "%s", big);
+    if (is_exit) {
+      /* a run-time Type object among what the teardown releases: its instances may be finalised after it (not exercised) */
+      for (size_t q = 0; q < gc->nslots; q++) if (gc->entries[q].hash && !gc->entries[q].root) {
+        int id = id_of(gc->entries[q].ptr); if (id >= 0 && (meta[id].kind == K_RTT || meta[id].kind == K_STY)) SKIP("unsupported"); }
+      int pfd[2]; if (pipe(pfd)) { perror("pipe"); exit(2); }
+      fflush(stdout);
+      pid_t pid = fork();
+      if (pid == 0) {
+        close(pfd[0]); exit_pipe = pfd[1]; in_exit_child = 1; alarm(30);
+        /* by the property: every registered object that is not a root is released exactly once, and what those Boxes own */
+        nforb = 0; forb_hits = 0; expect_begin();
+        for (int id = 0; id < MAXH; id++) if (reg_before[id]) { for (size_t q = 0; q < gc->nslots; q++) if (gc->entries[q].hash && gc->entries[q].ptr == meta[id].addr && !gc->entries[q].root) exp_rel[id] = 1; }
+        expect_closure();
+        hk.armed = 1; hk.fired = 0; hk.all = 1; hk.gc = gc; hk.nv = 0; hk.no = no; memcpy(hk.order, order, sizeof order);
+        exit(0);      /* atexit: Cello_Exit -> GC_Del -> GC_Sweep; hdr_fini then reports the ledger */
+      }
+      close(pfd[1]);
+      char got[1300]; ssize_t r, l = 0; while ((r = read(pfd[0], got + l, sizeof got - 1 - l)) > 0) l += r; got[l] = 0; close(pfd[0]);
+      int st = 0; waitpid(pid, &st, 0);
+      int clean = WIFEXITED(st) && WEXITSTATUS(st) == 0;
+      O("exit exc=%s freed=%s", clean ? "none" : "UB", !clean ? "*" : l ? got : "-");
+      if (!clean) XF("hdr-exit-crash", "the teardown at exit did not complete (child status 0x%x; exit code 97 = AddressSanitizer, 98 = UBSan)", st);
+      return;
     }
-    /* mark everything except the victims (which must not be a run-time type in use or an item of a live tuple) */
+    /* what must happen, by the property: registered non-root heap victims are released once, with what their Boxes own; nothing else is touched */
+    static char snap[64][400];
+    expect_begin();
+    for (int k2 = 0; k2 < nv; k2++) {
+      Meta* m = &meta[vict[k2]]; expect[k2] = 0; if (k2 < 64) snap[k2][0] = 0;
+      if (!m->used || !m->live) continue;
+      if (k2 < 64) { Target t = { 0, vict[k2], 0 }; char big[3500]; describe(big, big + sizeof big, t); snprintf(snap[k2], sizeof snap[k2], "%s", big); }
+    }
+    /* the victims: registered, not a run-time type in use, not an item of a live tuple; everything else is marked */
     for (size_t q = 0; q < gc->nslots; q++) if (gc->entries[q].hash) {
       int victim = 0;
-      for (int k = 0; k < nv; k++) if (meta[vict[k]].used && meta[vict[k]].live && meta[vict[k]].addr == gc->entries[q].ptr &&
-          !is_type_in_use(vict[k]) && !referenced(vict[k])) { victim = 1; if (!gc->entries[q].root) expect[k] = 1; }
+      for (int k2 = 0; k2 < nv; k2++) if (meta[vict[k2]].used && meta[vict[k2]].live && meta[vict[k2]].addr == gc->entries[q].ptr &&
+          !is_type_in_use(vict[k2]) && !referenced(vict[k2])) {
+        if (!victim) elig[ne++] = vict[k2];
+        victim = 1; if (!gc->entries[q].root) { expect[k2] = 1; exp_rel[vict[k2]] = 1; } }
       gc->entries[q].marked = !victim;
     }
     nforb = 0; forb_hits = 0;
-    for (int k = 0; k < nv; k++) { Meta* m = &meta[vict[k]]; if (m->used && m->live && m->ecls != AllocHeap && nforb < 8) forbid((char*)m->addr - HS, HS + m->cap, "a victim that is not on the heap"); }
-    V_TRY(exc, GC_Sweep(gc));
+    for (int k2 = 0; k2 < nv; k2++) { Meta* m = &meta[vict[k2]]; if (m->used && m->live && m->ecls != AllocHeap && nforb < 8) forbid((char*)m->addr - HS, HS + m->cap, "a victim that is not on the heap"); }
+    expect_closure();
+    hk.armed = 1; hk.fired = 0; hk.all = 0; hk.gc = gc; hk.nv = ne; memcpy(hk.vict, elig, sizeof(int) * ne); hk.no = no; memcpy(hk.order, order, sizeof order);
+    exc = NULL;
+    if (is_thr) {
+      /* registrations until GC_Set finds nitems > mitems and collects (GC_Mark; GC_Sweep) */
+      static var junk[8192]; int nj = 0;
+      while (!hk.fired && nj < 8192 && !exc) { V_TRY(exc, junk[nj] = new(Int, $I(nj))); if (!exc) nj++; }
+      int fired = hk.fired; hk.armed = 0;
+      for (int j = 0; j < nj; j++) { var e2; V_TRY(e2, del(junk[j])); junk[j] = NULL; if (e2 && !exc) exc = e2; }
+      if (!fired && !exc) { I("no threshold collection after %d registrations: GC_Sweep called directly", nj); hk.armed = 1; V_TRY(exc, GC_Sweep(gc)); }
+    } else {
+      V_TRY(exc, GC_Sweep(gc));
+    }
+    if (!hk.fired) I("the hook at the first statement of GC_Sweep did not fire: pending order not set");
+    hk.armed = 0;
     unprotect();
-    if (exc) XF("hdr-sweep", "GC_Sweep raised %s", v_exc_name(exc));
-    /* the model lists what was released in registration (= birth) order */
-    int order[64], no = 0;
-    for (int k = 0; k < nv; k++) {
-      int dup = 0; for (int j = 0; j < k; j++) if (vict[j] == vict[k]) dup = 1;
-      if (dup) continue;
-      Meta* m = &meta[vict[k]]; if (!m->used) continue;
-      int delta = m->frees - frees0[k];
-      if (delta > 0) { order[no++] = vict[k]; tab[vict[k]] = NULL; }
-      if (delta != expect[k]) XF("hdr-sweep", "sweep released object %d %d times, expected %d", vict[k], delta, expect[k]);
-      if (snap[k][0] && !expect[k]) {
-        Target t = { 0, vict[k], 0 }; char big[3500]; describe(big, big + sizeof big, t); big[sizeof snap[k] - 1] = 0;
-        if (strcmp(big, snap[k])) XF("hdr-changed", "a collector run changed object %d, which it does not manage: `%s` -> `%s`", vict[k], snap[k], big);
+    if (exc) XF("hdr-sweep", "the collection raised %s", v_exc_name(exc));
+    for (int k2 = nrel0; k2 < nrel; k2++) tab[relseq[k2]] = NULL;
+    expect_check(op);
+    for (int k2 = 0; k2 < nv && k2 < 64; k2++) {
+      Meta* m = &meta[vict[k2]]; if (!m->used) continue;
+      if (snap[k2][0] && !exp_rel[vict[k2]]) {
+        Target t = { 0, vict[k2], 0 }; char big[3500]; describe(big, big + sizeof big, t); big[sizeof snap[k2] - 1] = 0;
+        if (strcmp(big, snap[k2])) XF("hdr-changed", "a collector run changed object %d, which it does not manage: `%s` -> `%s`", vict[k2], snap[k2], big);
       }
     }
-    for (int x1 = 0; x1 < no; x1++) for (int y1 = x1 + 1; y1 < no; y1++) if (meta[order[y1]].stamp < meta[order[x1]].stamp) { int tmp = order[x1]; order[x1] = order[y1]; order[y1] = tmp; }
-    char out[800]; char* o = out; *o = 0;
-    for (int x1 = 0; x1 < no; x1++) o += snprintf(o, out + sizeof out - o, x1 ? ",%d" : "%d", order[x1]);
-    O("sweep freed=%s", no ? out : "-");
+    O("%s exc=%s freed=%s", op, v_exc_name(exc), rel_since(nrel0));
     oracle_registry();
     return;
   }
@@ -1031,8 +1211,18 @@ static void do_line(char** lines, size_t n, size_t li, int* recursed) {
   BAD();
 }
 
+/* AddressSanitizer is about to stop the process (use of a released block, double free, free of memory that is not a heap
+   block): say where, with the release ledger of the operation under way */
+static void on_sanitizer_death(void) {
+  static int once; if (in_kf_child || once++) return;
+  fprintf(vout ? vout : stdout, "X sig=hdr-sanitizer line=%zu what=AddressSanitizer stopped the library during this operation; blocks released by it so far: %s\n",
+          cur_line, rel_since(nrel0));
+  fflush(vout ? vout : stdout);
+}
+
 int main(int argc, char** argv) {
   v_init();
+  __sanitizer_set_death_callback(on_sanitizer_death);
   if (argc < 2) { fprintf(stderr, "usage: h_hdr <opfile>\n"); return 2; }
   size_t n; char** lines = v_read_lines(argv[1], &n);
   var table[MAXH]; memset(table, 0, sizeof table); tab = table;
